@@ -2,11 +2,30 @@ import Driver.Store
 import Driver.C06
 import Driver.C08
 import Siot.Model.Manager
+import Driver.Cfg
 namespace Driver.C07
 open Siot Siot.Store Siot.Manager Driver Driver.StoreD
 
 def vparentT : Bytes := strBytes "vparent"
 def isDel (bits : Nat) : Bool := bits != 0
+
+/-- the instrumented client's configuration type (harness vclient.go: Vdev with its Vchild children) in the
+    embedding of the C10/C11 model -/
+def vdevTy : Config.Ty :=
+  [⟨false, strBytes "description", .scalar .str⟩, ⟨false, strBytes "value", .scalar .f64⟩,
+   ⟨false, strBytes "level", .slice .f64⟩, ⟨false, strBytes "tag", .map .str⟩, ⟨true, strBytes "role", .scalar .str⟩]
+def vchildTy : Config.Ty := [⟨false, strBytes "description", .scalar .str⟩, ⟨false, strBytes "value", .scalar .f64⟩]
+
+def cfgPt (p : Point) : Config.Point := { type := p.type, key := p.key, value := p.value, text := p.text, tomb := p.tomb }
+
+/-- newClientState succeeds: the node with its children decodes into the configuration type (model of data.Decode) -/
+def decodable (st : St) (k : Key) : Bool :=
+  let lv := Auth.live isDel st
+  let ne : Config.NodeEdge := { id := k.2, parent := k.1, points := (ptsOf st k.2).map cfgPt, edgePoints := (eptsOf st k.1 k.2).map cfgPt }
+  let kids : List (Bytes × Config.NodeEdge) := (lv.filter (fun e => e.up == k.2)).map (fun e =>
+    (e.typ, { id := e.down, parent := e.up, points := (ptsOf st e.down).map cfgPt, edgePoints := (eptsOf st e.up e.down).map cfgPt }))
+  let r := Config.decodeC Cfg.num vdevTy [⟨C08.vchildT, vchildTy⟩] ne kids (Config.zero vdevTy) [[]]
+  !r.1.err && r.1.panic.isNone
 
 def handle (args : List String) (impl : String) : Verdict :=
   match args with
@@ -16,7 +35,8 @@ def handle (args : List String) (impl : String) : Verdict :=
     match C08.groupOp, (if opsS == "" then some [] else parseOps opsS) with
     | some g, some ops =>
       let (st, rs) := runOps C06.st0 (g ++ ops)
-      let w := (wanted isDel st C08.vdevT [vparentT]).eraseDups
+      -- placements the manager wants a client for; a client is only started where newClientState succeeds
+      let w := ((wanted isDel st C08.vdevT [vparentT]).eraseDups).filter (decodable st)
       let keyS := fun (k : Key) => C06.idStr k.1 ++ "-" ++ C06.idStr k.2
       let lv := Auth.live isDel st
       let kids := fun (id : Bytes) => sortS ((lv.filter (fun e => e.up == id && e.typ == C08.vchildT)).map (fun e => C06.idStr e.down))
@@ -26,7 +46,10 @@ def handle (args : List String) (impl : String) : Verdict :=
       let lvE := lv
       let reach : List Bytes := (List.range (lvE.length + 1)).foldl (fun acc _ =>
         (acc ++ (lvE.filter (fun e => acc.contains e.up && (e.typ == groupT || e.typ == vparentT))).map (·.down)).eraseDups) [st.root]
-      let should := sortS (((lvE.filter (fun e => e.typ == C08.vdevT && reach.contains e.up)).map (fun e => keyS (e.up, e.down))).eraseDups)
+      -- independent reading of "cannot be decoded": a `level` point whose key is neither empty nor a non-negative integer
+      let badNode := fun (id : Bytes) => (ptsOf st id).any (fun p => p.type == strBytes "level" && !p.key.isEmpty &&
+        (match Config.atoi p.key with | some i => decide (i < 0) | none => true))
+      let should := sortS (((lvE.filter (fun e => e.typ == C08.vdevT && reach.contains e.up && !badNode e.down)).map (fun e => keyS (e.up, e.down))).eraseDups)
       let implRuns := match (impl.splitOn "run=").getD 1 "" |>.splitOn " " with
         | r :: _ => if r == "-" then [] else r.splitOn ","
         | [] => []
